@@ -101,7 +101,52 @@ def r3_errors(toks, log):
         out.append(t); i += 1
     return out
 
-def r6_derives_and_attrs(toks, log):
+def r3b_error_fns(toks, log):
+    """`anyhow::Error::msg` -> `verif_err_from`; `<ident>.to_string()` -> `verif_string()`"""
+    out = []
+    i = 0
+    n = len(toks)
+    while i < n:
+        t = toks[i]
+        if t.text == "anyhow" and i + 4 < n and [x.text for x in toks[i + 1:i + 5]] == ["::", "Error", "::", "msg"]:
+            log.add("R3", t, "anyhow::Error::msg")
+            out += gen("verif_err_from", t, t.ws)
+            i += 5
+            continue
+        if t.kind == "id" and i + 4 < n and [x.text for x in toks[i + 1:i + 5]] == [".", "to_string", "(", ")"] and (i == 0 or toks[i - 1].text not in (".", "::")):
+            log.add("R3", t, render(toks[i:i + 5]))
+            out += gen("verif_string()", t, t.ws)
+            i += 5
+            continue
+        out.append(t); i += 1
+    return out
+
+def r14_concat(toks, log):
+    """`[a, b].concat()` -> `verif_concat2(a, b)` (both operands without top-level commas)"""
+    out = []
+    i = 0
+    n = len(toks)
+    while i < n:
+        t = toks[i]
+        if t.text == "[" and (i == 0 or toks[i - 1].kind == "punct" and toks[i - 1].text not in (")", "]")):
+            close = match_close(toks, i)
+            if close + 4 < n and [x.text for x in toks[close + 1:close + 5]] == [".", "concat", "(", ")"]:
+                inner = toks[i + 1:close]
+                depth = 0
+                commas = []
+                for k, x in enumerate(inner):
+                    if x.text in OPEN: depth += 1
+                    elif x.text in (")", "]", "}"): depth -= 1
+                    elif x.text == "," and depth == 0: commas.append(k)
+                if len(commas) == 1:
+                    log.add("R14", t, render(toks[i:close + 5]))
+                    out += gen("verif_concat2(", t, t.ws) + inner + gen(")", t, "")
+                    i = close + 5
+                    continue
+        out.append(t); i += 1
+    return out
+
+def r6_derives_and_attrs(toks, log, keep_derives=None):
     out = []
     i = 0
     while i < len(toks):
@@ -111,7 +156,7 @@ def r6_derives_and_attrs(toks, log):
             name = toks[i + 2].text
             if name == "derive":
                 ids = [x.text for x in toks[i + 4:close - 1] if x.kind == "id"]
-                keep = [x for x in ids if x in KEEP_DERIVES]
+                keep = [x for x in ids if x in (KEEP_DERIVES if keep_derives is None else keep_derives)]
                 if keep != ids:
                     log.add("R6", t, render(toks[i:close + 1]))
                 if keep:
@@ -120,6 +165,27 @@ def r6_derives_and_attrs(toks, log):
                     toks[close + 1] = toks[close + 1].clone(ws=t.ws)
                 i = close + 1
                 continue
+            if name == "cfg" and i > 0:
+                # a cfg-gated field / statement inside an item: keep it or drop it together with the attribute
+                import extract as _X
+                val, _ = _X._cfg_eval(toks, i + 4)
+                if not val:
+                    j = close + 1
+                    depth = 0
+                    while j < len(toks):
+                        x = toks[j].text
+                        if x in OPEN: depth += 1
+                        elif x in (")", "]", "}"):
+                            if depth == 0: break
+                            depth -= 1
+                        elif x in (",", ";") and depth == 0:
+                            j += 1; break
+                        j += 1
+                    log.add("R6", t, render(toks[i:j]))
+                    if j < len(toks):
+                        toks[j] = toks[j].clone(ws=t.ws)
+                    i = j
+                    continue
             if name in ("serde", "allow", "inline", "must_use", "doc", "rustfmt", "cfg", "cfg_attr"):
                 if name in ("serde",):
                     log.add("R6", t, render(toks[i:close + 1]))
@@ -240,7 +306,8 @@ def r5_consts(pieces_toks, const_context, log, rustc="rustc"):
     for toks in pieces_toks:
         i = 0
         while i < len(toks):
-            if toks[i].text == "const" and toks[i + 1].kind == "id" and toks[i + 2].text == ":":
+            if toks[i].text == "const" and i + 2 < len(toks) and toks[i + 1].kind == "id" and toks[i + 2].text == ":" \
+                    and (i == 0 or toks[i - 1].text in (";", "}", "{", "]")):
                 e = i
                 while toks[e].text != ";":
                     if toks[e].text in OPEN:
@@ -283,10 +350,12 @@ def r5_consts(pieces_toks, const_context, log, rustc="rustc"):
 
 def apply_item_rewrites(toks, log, opts=None):
     opts = opts or {}
-    toks = r6_derives_and_attrs(toks, log)
+    toks = r6_derives_and_attrs(toks, log, opts.get("derives"))
     toks = r11_visibility(toks, log)
     toks = r2_logs(toks, log)
     toks = r3_errors(toks, log)
+    toks = r3b_error_fns(toks, log)
+    toks = r14_concat(toks, log)
     toks = r4_dyn(toks, log)
     toks = r12_bytes(toks, log)
     if opts.get("inherent"):
@@ -294,26 +363,34 @@ def apply_item_rewrites(toks, log, opts=None):
     return toks
 
 
-def r13_prefix_defs(toks, log, prefix, names):
+def r13_prefix_defs(toks, log, prefix, names, aliases=None):
     """R13a: top-level fn/const/static (and listed type) names of a flattened module get `<prefix>__`;
-    bare uses of those names inside the same module are renamed too."""
+    bare uses of those names inside the same module are renamed too (fns: only calls / definitions)."""
+    aliases = aliases or {}
     out = []
     for i, t in enumerate(toks):
-        if t.kind == "id" and t.text in names:
+        if t.kind == "id" and (t.text in names or t.text in aliases):
             prev = toks[i - 1].text if i > 0 else ""
-            if prev in (".",) or (prev == "::" and not (i > 1 and toks[i - 2].text in ("self", "Self", "super", "crate"))):
-                out.append(t); continue
-            if prev == "::" and toks[i - 2].text == "Self":
-                out.append(t); continue
             nxt = toks[i + 1].text if i + 1 < len(toks) else ""
-            if prev in ("fn", "const", "static", "struct", "enum", "type") or nxt in ("(", "::", "<", "{") or names[t.text] == "type" or prev in ("&", "(", ",", "=", "[", "return", "<", ":", "->", "mut"):
-                if prev == ":" and nxt not in ("(", "::", "<", "{", ",", ")", ">", ";", "=") and names[t.text] != "type":
-                    out.append(t); continue
+            if prev in (".", "::"):
+                out.append(t); continue
+            if t.text in aliases:
+                if nxt in ("(", "::"):
+                    log.add("R13", t, t.text)
+                    out.append(t.clone(text=aliases[t.text])); continue
+                out.append(t); continue
+            kind = names[t.text]
+            if kind == "fn":
+                ok = prev == "fn" or nxt == "(" or (nxt == "::" and toks[i + 2].text == "<")
+            elif kind in ("const", "static"):
+                ok = not (nxt == ":" and prev in ("{", ",", "("))   # struct-literal field / named arg
+            else:
+                ok = True
+            if ok:
                 log.add("R13", t, t.text)
                 out.append(t.clone(text=prefix + "__" + t.text))
                 continue
         out.append(t)
-    # drop `self ::` / `super ::` left in front of renamed names
     return out
 
 def r13_paths(toks, log, paths):
